@@ -4,6 +4,7 @@ import BigtreeProofs.Lemmas.PathsAddr
 import BigtreeProofs.Lemmas.PathsSet
 import BigtreeProofs.Lemmas.PathsInsert
 import BigtreeProofs.Lemmas.PathsLoop
+import BigtreeProofs.Lemmas.PathsNoDup
 /-!
 # C05 — path-based constructors build exactly the prefix closure of the given paths
 
@@ -96,5 +97,37 @@ theorem sep_invariant (treeSep : Str) (c d : Char) (dupOk : Bool) (t : Tree) (fr
 
 example : addPath ['/'] ['/'] true (.node 0 ['a'] [] []) 1 "/a/b c/".toList []
     = addPath ['/'] ['.'] true (.node 0 ['a'] [] []) 1 "a.b c".toList [] := by rfl
+
+/-- With duplicate names disallowed (`find_name` over the whole tree + comparison of the full
+    path, fix D3) the call either raises, or returns exactly what the call with duplicates
+    allowed returns — and then all names are distinct if they were before.
+    `s` is the tree's separator; it occurs in no name. -/
+theorem no_dup_mode (s : Char) (t : Tree) (fresh : Nat) (branch : List Str) (attrs : Attrs)
+    (hs : SibUnique t) (hf : SepFree s t) (hb : ∀ x ∈ branch, s ∉ x) :
+    (∃ e, addComps [s] false t fresh branch attrs = .error e) ∨
+    (∃ r, addComps [s] false t fresh branch attrs = .ok r ∧
+          addComps [s] true t fresh branch attrs = .ok r ∧
+          ((names t).Nodup → (names r.1).Nodup)) := by
+  cases h : addComps [s] false t fresh branch attrs with
+  | error e => exact .inl ⟨e, rfl⟩
+  | ok r =>
+    obtain ⟨h1, h2⟩ := addComps_nodup s t fresh branch attrs r hs hf hb h
+    exact .inr ⟨r, rfl, h1, h2⟩
+
+/-- D3 witness: root `a` with `a/xa/b`; adding `a/b` with duplicates disallowed raises
+    `DuplicatedNodeError` (before the fix it returned the node `/a/xa/b`). -/
+example : addComps ['/'] false (.node 0 ['a'] [] [.node 1 ['x', 'a'] [] [.node 2 ['b'] [] []]]) 3
+    [['a'], ['b']] [] = .error .dup := by rfl
+
+/-- non-vacuity: a call with duplicates disallowed that succeeds -/
+example : addComps ['/'] false (.node 0 ['a'] [] [.node 1 ['x', 'a'] [] [.node 2 ['b'] [] []]]) 3
+    [['a'], ['x', 'a'], ['c']] [] =
+    .ok (.node 0 ['a'] [] [.node 1 ['x', 'a'] [] [.node 2 ['b'] [] [], .node 3 ['c'] [] []]], [0, 1], 4) := by
+  rfl
+
+example : SepFree '/' (.node 0 ['a'] [] [.node 1 ['x', 'a'] [] [.node 2 ['b'] [] []]]) := by
+  intro q hq x hx
+  simp [paths, pathsL] at hq
+  rcases hq with rfl | rfl | rfl <;> simp at hx <;> rcases hx with h | h | h <;> subst_vars <;> decide
 
 end C05
